@@ -364,15 +364,16 @@ theorem C07_deposit_locks (so : ScriptOf) (a : Account) (amount rate : Int) (bes
 /-- **C07_spend_path**: which path a spend takes, as a function of the account and the best height, tied to the
 source: the expiry witness is chosen iff the account is marked expired or `expiry ≤ best` (model), the Go function
 `determineWitnessType` has exactly that condition and `spendAccount` assigns lock time `bestHeight` to the expiry
-witnesses and `0` to the cooperative ones (regenerated facts `expiredConds`, `lockTimeSwitch`, `expirySpendTypes`). -/
+witnesses and `0` to the cooperative ones (regenerated facts `expiredConds`, `lockTimeSwitch`, `expirySpendTypes`,
+normalised: parameters named by type, locals inlined, comparisons canonicalised, if-chains ≡ switches). -/
 theorem C07_spend_path (a : Account) (best : UInt32) :
     (((determineWitnessType a best = wt_expiryWitness ∨ determineWitnessType a best = wt_expiryTaproot) ↔
       (a.state = StateExpired ∨ a.expiry.toNat ≤ best.toNat)) ∧
      ((determineWitnessType a best = wt_multiSigWitness ∨ determineWitnessType a best = wt_muSig2Taproot) ↔
       ¬ (a.state = StateExpired ∨ a.expiry.toNat ≤ best.toNat))) ∧
-    expiredConds = ["account.State == StateExpired || account.Expiry <= bestHeight"] ∧
-    lockTimeSwitch = [(wt_expiryWitness, "bestHeight"), (wt_multiSigWitness, "0"), (wt_expiryTaproot, "bestHeight"),
-      (wt_muSig2Taproot, "0")] ∧
+    expiredConds = ["($account.Expiry <= $u32) || ($account.State == StateExpired)"] ∧
+    lockTimeSwitch = [(wt_expiryWitness, "best"), (wt_multiSigWitness, "zero"), (wt_expiryTaproot, "best"),
+      (wt_muSig2Taproot, "zero")] ∧
     expirySpendTypes = [wt_expiryWitness, wt_expiryTaproot] :=
   ⟨determineWitnessType_expiry a best, by decide, by decide, by decide⟩
 
